@@ -320,3 +320,37 @@ Proof.
   destruct (N.to_nat (un_le16 d) + 4 <=? length d) eqn:E2; [|cbn in Hne; congruence].
   apply Nat.leb_le in E1, E2. auto.
 Qed.
+
+(** ** MTU bookkeeping: the fragment size follows the LAST peer MTU, whatever the history
+    of set_local_mtu / set_remote_mtu calls. *)
+Lemma mtu_run_app ops o : mtu_run (ops ++ [o]) = mtu_step (mtu_run ops) o.
+Proof. unfold mtu_run. rewrite fold_left_app. reflexivity. Qed.
+
+Lemma remote_after_set_remote ops m : remote_mtu (mtu_run (ops ++ [SetRemote m])) = m.
+Proof. rewrite mtu_run_app. reflexivity. Qed.
+
+Lemma remote_after_set_local ops m :
+  remote_mtu (mtu_run (ops ++ [SetLocal m])) = remote_mtu (mtu_run ops).
+Proof. rewrite mtu_run_app. reflexivity. Qed.
+
+Lemma local_ge_remote_after_set_remote ops m :
+  m <= local_mtu (mtu_run (ops ++ [SetRemote m])).
+Proof.
+  rewrite mtu_run_app. cbn [mtu_step local_mtu].
+  destruct (local_mtu (mtu_run ops) <? m) eqn:E; [lia|]. apply Nat.ltb_ge in E. exact E.
+Qed.
+
+Lemma payload_bound_after ops cid sdu :
+  2 <= remote_mtu (mtu_run ops) ->
+  Forall (fun f : frag => length (snd f) <= remote_mtu (mtu_run ops) + 4) (send_after ops cid sdu).
+Proof. intros H. unfold send_after. apply payload_bound. exact H. Qed.
+
+Lemma reassembly_after ops cid sdu st0 :
+  2 <= remote_mtu (mtu_run ops) -> (nlen sdu < 65536)%N -> (cid < 65536)%N ->
+  recv_all st0 (send_after ops cid sdu)
+  = (deliverable cid sdu, {| fifo := None; expected := length sdu + 4 |}).
+Proof. intros. unfold send_after. apply reassembly_inverse; assumption. Qed.
+
+Lemma mtu_last_remote_wins ops m :
+  remote_mtu (mtu_run (ops ++ [SetRemote m])) = m /\ m <= local_mtu (mtu_run (ops ++ [SetRemote m])).
+Proof. split; [apply remote_after_set_remote | apply local_ge_remote_after_set_remote]. Qed.
